@@ -218,9 +218,63 @@ def gen_oneshot(rng, kind):
 
 KINDS = list(FIXED) + list(SHAKES) + ["blake2s", "kblake2s", "blake2s256"]
 
+# total lengths at which a message-length counter crosses a word boundary: 2^29 bytes = 2^32 bits (SHA-2 counts bits),
+# 2^32 bytes (byte counters kept in two 32-bit words: BLAKE2s t0/t1, vectorised code that moves 32-bit lanes)
+LONG_PLAN = [("sha256", (1 << 29) + 1), ("sha224", 1 << 29), ("sha256", (1 << 32) + 77), ("sha512", (1 << 29) + 3), ("sha512", (1 << 32) + 129), ("sha384", 1 << 32),
+             ("blake2s", (1 << 32) - 1), ("blake2s", 1 << 32), ("blake2s", (1 << 32) + 65), ("kblake2s", (1 << 32) - 64), ("kblake2s", (1 << 32) - 65),
+             ("blake2s256", (1 << 32) + 1), ("sha512_256", (1 << 32) - 1), ("sha3_256", (1 << 32) + 5), ("shake128", (1 << 32) + 9), ("sha512_224", (1 << 29) - 1)]
 
-def gen(rng, shard, nshards, n_hist, full_grid):
+
+def gen_long(rng, idx):
+    """one message of about 2^29 or 2^32 bytes, fed as head + chunk*count + tail (so that the internal buffer is misaligned);
+    reference = hashlib fed the same way"""
+    kind, total = LONG_PLAN[idx % len(LONG_PLAN)]
+    head = rbytes(rng, rng.choice([0, 1, 13, 63]))
+    chunk = rbytes(rng, rng.choice([65536, 65536 + 17, 1 << 20]))
+    cnt = (total - len(head)) // len(chunk)
+    tail = rbytes(rng, total - len(head) - cnt * len(chunk))
+    T = "lg%d" % idx
+    if kind == "blake2s":
+        ol = rng.randrange(1, 33); lines = ["h new %s blake2s %d" % (T, ol)]; h = hashlib.blake2s(digest_size=ol)
+    elif kind == "kblake2s":
+        ol = rng.randrange(1, 33); key = rbytes(rng, rng.randrange(1, 33)); lines = ["h new %s kblake2s %d %s" % (T, ol, key.hex())]; h = hashlib.blake2s(digest_size=ol, key=key)
+    elif kind == "blake2s256":
+        lines = ["h new %s blake2s256" % T]; h = hashlib.blake2s()
+    elif kind in SHAKES:
+        lines = ["h new %s %s" % (T, kind)]; h = SHAKES[kind][0]()
+    else:
+        lines = ["h new %s %s" % (T, kind)]; h = FIXED[kind][0]()
+    exp = ["OK -"]
+    if head:
+        lines.append("h update %s %s" % (T, head.hex())); exp.append("OK -"); h.update(head)
+    lines.append("h update_rep %s %s %d" % (T, chunk.hex(), cnt)); exp.append("OK -")
+    for _ in range(cnt):
+        h.update(chunk)
+    if tail:
+        lines.append("h update %s %s" % (T, tail.hex())); exp.append("OK -"); h.update(tail)
+    if kind in SHAKES:
+        lines.append("h flip_extract %s 48" % T); exp.append("OK " + h.digest(48).hex())
+    elif kind in ("blake2s", "kblake2s"):
+        lines.append("h finalize_reset_write %s" % T); exp.append("OK %s %d" % (h.hexdigest(), ol))
+        # and the context is usable again after the long message (counter words reset)
+        d2 = rbytes(rng, 70)
+        lines.append("h update %s %s" % (T, d2.hex())); exp.append("OK -")
+        h2 = hashlib.blake2s(d2, digest_size=ol, key=key) if kind == "kblake2s" else hashlib.blake2s(d2, digest_size=ol)
+        lines.append("h finalize_write %s" % T); exp.append("OK %s %d" % (h2.hexdigest(), ol))
+    else:
+        lines.append("h finalize_reset %s" % T); exp.append("OK " + h.hexdigest())
+        d2 = rbytes(rng, 70)
+        lines.append("h update %s %s" % (T, d2.hex())); exp.append("OK -")
+        h2 = hashlib.blake2s(d2) if kind == "blake2s256" else FIXED[kind][0](d2)
+        lines.append("h finalize %s" % T); exp.append("OK " + h2.hexdigest())
+    bound = "2^29" if total < (1 << 30) else "2^32"
+    return Case(lines, exp, ["long-message", "long-message:%s@%s" % (kind, bound)], "long message", only=("default", "avx2"))
+
+
+def gen(rng, shard, nshards, n_hist, full_grid, long_per_shard=0):
     cases = []
+    for j in range(long_per_shard):
+        cases.append(gen_long(rng, shard + j * nshards))
     if full_grid:
         # every (out_len, key_len) pair of BLAKE2s once
         idx = 0
@@ -248,7 +302,8 @@ def main(argv):
     rep = Report("C17", a.tier, a.seed)
     rep.rule = ("random call histories (4..40 calls on up to 3 live contexts incl. clones) per function with update lengths around every "
                 "block/rate boundary, finalize variants, resets, update-after-finalize, SHAKE extract chunkings; all (out_len,key_len) "
-                "BLAKE2s pairs once; model = hashlib on the bytes since the last reset. An event is one call with a checked output; "
+                "BLAKE2s pairs once; one message per worker whose total length crosses 2^29 bytes (2^32 bits) or 2^32 bytes, fed as head + chunk x count + tail "
+                "(default and AVX2 builds); model = hashlib on the bytes since the last reset. An event is one call with a checked output; "
                 "distinct_nontrivial = distinct histories touching a boundary class")
     rep.assumptions = ["CPython hashlib (OpenSSL / reference BLAKE2) implements the standards"]
     try:
@@ -259,11 +314,12 @@ def main(argv):
             cfgs = (a.configs.split(",") if a.configs else ALL_CONFIGS)
             n = int(150000 * a.scale)
         exes = build_many(cfgs)
-        m = run_rounds(1 if a.tier == "quick" else 4, "c17", "gen", (n // NCPU + 1, True), [(c, exes[c]) for c in cfgs], a.seed, timeout=3600)
+        m = run_rounds(1 if a.tier == "quick" else 4, "c17", "gen", (n // NCPU + 1, True, 1), [(c, exes[c]) for c in cfgs], a.seed, timeout=3600)
         rep.merge(m)
         req = ["blake2s-grid", "clone", "reset", "finalize-and-reset", "finalize:empty", "total=rate", "total=rate-1", "total=rate+1", "total=55", "total=56",
                "total=64", "total=111", "total=112", "total=128", "extract:crosses-rate", "extract:n=0", "shake128:extract:n=rate", "shake256:total=multiple-of-rate",
-               "kblake2s:kblake2s:keylen=32", "blake2s:blake2s:outlen=1", "oneshot"]
+               "kblake2s:kblake2s:keylen=32", "blake2s:blake2s:outlen=1", "oneshot", "long-message:sha256@2^29", "long-message:sha256@2^32",
+               "long-message:sha512@2^32", "long-message:blake2s@2^32", "long-message:kblake2s@2^32"]
         req += [k + ":finalize:data" for k in list(FIXED) + ["blake2s", "kblake2s", "blake2s256"]]
         rep.require(*req)
     except Inconclusive as e:
